@@ -30,6 +30,9 @@ RULE = (
     'Non-trivial = a retry was consumed or a duplicate / late message or a '
     'poll result was delivered; distinct by the whole case.')
 ASSUMPTIONS = [
+    'Schedule domain: a job\'s final message (succeeded/failed) is never '
+    'delivered before the jobs-submit command that launched it has returned '
+    '("started" may overtake the submit callback).',
     'Retry delays are PT0S on the virtual clock (each clock read advances '
     '1 microsecond), so a lined-up retry is released on a following iteration.',
     'The submission retry counter restarts after a job starts (documented in '
